@@ -115,6 +115,9 @@ func (e *Env) Invariant(oracle string, f func() string) {
 	e.installOnStep()
 }
 
+// ClearInvariants stops invariant checking (before teardown).
+func (e *Env) ClearInvariants() { e.invs = nil }
+
 // AtStep runs f (in the scheduler goroutine, at a quiescent point) when the
 // step counter reaches k.
 func (e *Env) AtStep(k uint64, f func()) {
@@ -178,6 +181,7 @@ type Tok struct {
 	SleepNs          int64  // handler takes this much fake time
 	GapNs            int64  // sub: producer pause between values
 	InvokeT, ReturnT time.Duration
+	Gate             chan struct{} // if set, the handler blocks on it (released by the scenario)
 
 	mu        sync.Mutex
 	Execs     int
